@@ -26,7 +26,16 @@ def world():
     return _WORLD
 
 
+def _dump_on_usr1():
+    try:
+        import faulthandler, signal
+        faulthandler.register(signal.SIGUSR1, all_threads=True)
+    except Exception:
+        pass
+
+
 def _task(args):
+    _dump_on_usr1()
     target, variant, tier = args[:3]
     cid = args[3] if len(args) > 3 else None
     from pyvc.verify import verify_function, verify_lemma
@@ -91,6 +100,7 @@ def match_finding(findings, prop, obl):
 
 
 def main():
+    _dump_on_usr1()
     ap = argparse.ArgumentParser()
     ap.add_argument('prop')
     ap.add_argument('--tier', default=os.environ.get('VERIF_TIER', 'quick'))
